@@ -43,6 +43,10 @@ type Op struct {
 	Idx2     int     `json:"idx2,omitempty"`
 	Mode     string  `json:"mode,omitempty"`
 	Order    []int   `json:"order,omitempty"`
+	// start / restart: BreakAfter > 0 makes the first recovery stream of this start that has
+	// more than BreakAfter-1 responses fail with a transport error after handing out
+	// BreakAfter-1 of them
+	BreakAfter int `json:"break_after,omitempty"`
 	Mask     int     `json:"mask,omitempty"`
 	SubKind  int     `json:"sub_kind,omitempty"`
 	// ReadFault (redeliver): digest reads at the node fail while the request is processed
@@ -66,6 +70,13 @@ func genSubs(t *rapid.T, keys int) []SubOp {
 		out = append(out, SubOp{K: rapid.IntRange(0, keys-1).Draw(t, "k"), Del: rapid.IntRange(0, 4).Draw(t, "del") == 0})
 	}
 	return out
+}
+
+func genBreak(t *rapid.T) int {
+	if rapid.IntRange(0, 3).Draw(t, "break-recovery") != 0 {
+		return 0
+	}
+	return rapid.IntRange(1, 3).Draw(t, "break-after")
 }
 
 var fbModes = []string{"", "", "", "", "drop", "dup", "hold", "hold"}
@@ -130,12 +141,12 @@ func genOps(t *rapid.T, n, keys int, c13 bool) []Op {
 			}
 			switch {
 			case down >= 0:
-				ops = append(ops, Op{Kind: "start", N: down, Order: rapid.Permutation(seq(n)).Draw(t, "order")})
+				ops = append(ops, Op{Kind: "start", N: down, Order: rapid.Permutation(seq(n)).Draw(t, "order"), BreakAfter: genBreak(t)})
 				down = -1
 			case cut:
 				continue
 			case rapid.Bool().Draw(t, "restart"):
-				ops = append(ops, Op{Kind: "restart", N: node("n"), Order: rapid.Permutation(seq(n)).Draw(t, "order")})
+				ops = append(ops, Op{Kind: "restart", N: node("n"), Order: rapid.Permutation(seq(n)).Draw(t, "order"), BreakAfter: genBreak(t)})
 			default:
 				down = node("n")
 				ops = append(ops, Op{Kind: "stop", N: down})
